@@ -58,11 +58,13 @@ Record gen := {
                                        iterator into a reference cycle (exception -> traceback -> frame -> the exception), so dropping
                                        the iterator no longer runs __del__ at that point *)
   g_base : nat;                     (* ghost: source position this generation was reset to *)
-  g_recv : nat                      (* ghost: items the consumer received in this generation (fast-forward included) *)
+  g_recv : nat;                     (* ghost: items the consumer received in this generation (fast-forward included) *)
+  g_taken : nat;                    (* ghost: entries the consumer has taken out of its output queue *)
+  g_term : bool                     (* ghost: one of them was the end of the stream (StopIteration / a source error) *)
 }.
 #[export] Instance eta_gen : Settable _ := settable! Build_gen
   <g_sem; g_q1; g_q2; g_q3; g_store; g_stop; g_mpstop; g_r; g_ryield; g_ridx; g_ws; g_s; g_sbuf; g_scur;
-   g_c; g_done; g_snap; g_steps; g_ff; g_cyc; g_base; g_recv>.
+   g_c; g_done; g_snap; g_steps; g_ff; g_cyc; g_base; g_recv; g_taken; g_term>.
 
 Inductive mode := Go | Timeout.
 Inductive role := GR | GW (i : nat) | GS.
@@ -227,11 +229,11 @@ Definition cstep (c : cfg) (m : mode) (g : gen) : gen * option out :=
             | Go => match outq c g with
                     | [] => (g, None)
                     | (p, i) :: tl =>
-                        let g := set_outq c tl g in
+                        let g := set_outq c tl g <| g_taken ::= S |> in
                         match p with
                         | PItem x => (g <| g_c := CRel x i |>, None)
-                        | PStop => (g <| g_done := (if k_pm c then true else g_done g) |> <| g_c := CRelStop |>, None)
-                        | PErr e => (g <| g_c := CRelErr e i |>, None)
+                        | PStop => (g <| g_done := (if k_pm c then true else g_done g) |> <| g_term := true |> <| g_c := CRelStop |>, None)
+                        | PErr e => (g <| g_term := (match e with 1 => g_term g | _ => true end) |> <| g_c := CRelErr e i |>, None)
                         end
                     end
             | Timeout => (g <| g_c := CChk |>, None)
@@ -304,7 +306,7 @@ Definition new_gen (c : cfg) (base ff : nat) : gen :=
      g_ws := if k_pm c then repeat WStart (k_nw c) else [];
      g_s := if k_pm c && k_inorder c then SStart else SDone; g_sbuf := []; g_scur := 0;
      g_c := if k_pm c then CSleep else CInit; g_done := false; g_snap := base; g_steps := 0; g_ff := ff; g_cyc := false;
-     g_base := base; g_recv := 0 |}.
+     g_base := base; g_recv := 0; g_taken := 0; g_term := false |}.
 
 Definition inside (gs : list gen) : nat :=
   length (filter (fun g => match g_r g with RPull => true | _ => false end) gs).
